@@ -76,7 +76,7 @@ type RecBowl struct {
 
 var _ bowl.Bowl = (*RecBowl)(nil)
 
-func (b *RecBowl) Resume(c *bowl.BowlCheckpoint) error  { return b.Inner.Resume(c) }
+func (b *RecBowl) Resume(c *bowl.BowlCheckpoint) error { return b.Inner.Resume(c) }
 func (b *RecBowl) Save() (*bowl.BowlCheckpoint, error) { return b.Inner.Save() }
 func (b *RecBowl) GetWriter(index int64) (bowl.EntryWriter, error) {
 	b.Rec.add(Ev{Kind: "W", A: index})
